@@ -603,7 +603,7 @@ def qstream_algebra(ctx, rid):
               "QStreamId::from_session_id is not `session_id >> 2`: %s" % ls, where(f))
     f = A.fn("wtransport_proto::ids::QStreamId::into_stream_id")
     ls = sorted({path_sig(p)[1] for p in nonpanic(walk(f))})
-    ctx.check(rid, "into_stream_id == q << 2", ls == ["return StreamId::new(VarInt::from_u64_unchecked(Shl(VarInt::into_inner(self.0),2)))"],
+    ctx.check(rid, "into_stream_id == q << 2", ls == ["return StreamId(VarInt::from_u64_unchecked(Shl(VarInt::into_inner(self.0),2)))"],
               "QStreamId::into_stream_id is not `q << 2`: %s" % ls, where(f))
     f = A.fn("wtransport_proto::ids::QStreamId::into_session_id")
     ls = sorted({path_sig(p)[1] for p in nonpanic(walk(f))})
@@ -1008,13 +1008,13 @@ def connect_stream_run_table(ctx, rid):
         {"name": "close capsule->ApplicationClosed(code,reason) + reset NoError",
          "atoms": [r" is Data$", r"^%s ok$" % CAP, r"^%s ok$" % CL],
          "events": [r"::reset\(Option::unwrap\(Option::take\(self\.stream\)\),ErrorCode::to_code\(ErrorCode::NoError\)\)$"],
-         "leaf": r"^return DriverError::ApplicationClosed\(ApplicationClose::new\(CloseWebTransportSession::error_code\(ok\(%s\)\),Vec::into_boxed_slice\(<impl \[T\]>::to_vec\(<impl str>::as_bytes\(CloseWebTransportSession::reason\(ok\(%s\)\)\)\)\)\)\)$" % (CL, CL)},
+         "leaf": r"^return DriverError::ApplicationClosed\(ApplicationClose\(CloseWebTransportSession::error_code\(ok\(%s\)\),Vec::into_boxed_slice\(<impl \[T\]>::to_vec\(<impl str>::as_bytes\(CloseWebTransportSession::reason\(ok\(%s\)\)\)\)\)\)\)$" % (CL, CL)},
         {"name": "malformed capsule->Proto(code)", "atoms": [r"^%s fails$" % CL], "leaf": r"^return DriverError::Proto\(err\(%s\)\)$" % CL},
         {"name": "unknown capsule->skip", "atoms": [r"^%s fails$" % CAP], "leaf": r"^continue$"},
         {"name": "non-DATA frame->skip", "atoms": [r" isnot Data$"], "leaf": r"^continue$"},
         {"name": "H3(code)->Proto(code)", "atoms": [r" is H3$"], "leaf": r"^return DriverError::Proto\(\(err\(%s\) as H3\)\.0\)$" % RF},
         {"name": "clean FIN->ApplicationClosed(0,[])", "atoms": [r" is ImmediateFin$"],
-         "leaf": r"^return DriverError::ApplicationClosed\(ApplicationClose::new\(VarInt::from_u32\(0\),\(Box::new\(\[\]\) as std::boxed::Box<\[u8\]>\)\)\)$"},
+         "leaf": r"^return DriverError::ApplicationClosed\(ApplicationClose\(VarInt::from_u32\(0\),\(Box::new\(\[\]\) as std::boxed::Box<\[u8\]>\)\)\)$"},
         {"name": "FIN inside frame->ClosedCriticalStream", "atoms": [r" is UnexpectedFin$"], "leaf": r"^return DriverError::Proto\(ErrorCode::ClosedCriticalStream\)$"},
         {"name": "reset->ClosedCriticalStream", "atoms": [r" is Reset$"], "leaf": r"^return DriverError::Proto\(ErrorCode::ClosedCriticalStream\)$"},
         {"name": "NotConnected", "atoms": [r" is NotConnected$"], "leaf": r"^return DriverError::NotConnected$"},
@@ -1261,7 +1261,7 @@ def driver_datagram_tables(ctx, rid):
     ]
     match_table(ctx, rid, f, walk(f), rows, "driver Datagram::read")
     f = A.fn("wtransport::datagram::Datagram::write")
-    H = r"Datagram::new\(QStreamId::from_session_id\(session_id\),payload\)"
+    H = r"(?:datagram::)?Datagram\(QStreamId::from_session_id\(session_id\),payload\)"
     BUF = r"Vec::into_boxed_slice\(from_elem\(0,Datagram::write_size\(%s\)\)\)" % H
     QD = r"<Bytes as From<Box<\[u8\]>>>::from\(%s\)" % BUF
     ps = nonpanic(walk(f))
@@ -1269,7 +1269,7 @@ def driver_datagram_tables(ctx, rid):
     want = r"^return datagram::Datagram\(%s,SubWithOverflow\(Bytes::len\(%s\),<impl \[T\]>::len\(payload\)\)\.0,session_id\)$" % (QD, QD)
     ctx.check(rid, "driver Datagram::write", len(ls) == 1 and re.match(want, ls[0]) is not None, "driver Datagram::write changed shape: %s" % ls, where(f))
     evs = [e for p in ps for e in event_strs(p)]
-    ctx.check(rid, "driver Datagram::write serialises into the exact-size buffer", any(re.match(r"^Datagram::write\(%s,\(%s as " % (H, BUF), e) or re.match(r"^Datagram::write\(%s,%s" % (H, BUF), e) or e.startswith("Datagram::write(Datagram::new(QStreamId::from_session_id(session_id),payload),") for e in evs),
+    ctx.check(rid, "driver Datagram::write serialises into the exact-size buffer", any(re.match(r"^Datagram::write\(%s,\(?%s[.) ]" % (H, BUF), e) for e in evs),
               "driver Datagram::write does not call proto Datagram::write into the buffer of write_size bytes", where(f))
     for nm, fld in (("payload", r"^return Bytes::slice\(self\.quic_dgram,RangeFrom\(self\.payload_offset\)\)$"),
                     ("session_id", r"^return self\.session_id$"), ("into_quic_bytes", r"^return self\.quic_dgram$")):
@@ -1356,6 +1356,9 @@ def proto_io_adapters(ctx, rid):
 
 # ------------------------------------------------------------------ stream handles delegate I/O to the quinn stream unchanged
 
+_ONLY_BISTREAM_ACCESSORS = re.compile(r"^(?!wtransport::stream::BiStream::(send|recv)(_mut)?$).*$")
+
+
 def stream_io_delegation(ctx, rid):
     """The data path of a stream is `public wrapper -> Quic{Send,Recv}Stream -> quinn`: every hop passes the caller's buffer, returns the
     inner call's count / end-of-stream marker unchanged, `write_all` is quinn's `write_all` (not a single partial `write`), and every tokio
@@ -1367,7 +1370,7 @@ def stream_io_delegation(ctx, rid):
         if not m or not g.body:
             continue
         nio += 1
-        sg = [path_sig(p)[1] for p in nonpanic(walk(g))]
+        sg = [path_sig(p)[1] for p in nonpanic(walk(g, inline=_ONLY_BISTREAM_ACCESSORS))]   # `self.0.0` and `self.send_mut()` are the same place
         ctx.check(rid, "%s::%s (tokio) delegates to the same method" % (m.group(1).split("::")[-1], m.group(3)),
                   len(sg) == 1 and re.match(r"^return (<\w+ as Async(Read|Write)>|Async(Read|Write))::%s\(self\.[\w.]+,cx(,\w+)?\)$" % m.group(3), sg[0]) is not None,
                   "%s does not delegate to the wrapped stream's %s: %s" % (g.path, m.group(3), sg), where(g), key="tokio delegation|%s" % g.path.replace("wtransport::", ""))
@@ -1410,7 +1413,7 @@ def id_conversions(ctx, rid):
     f = A.fn("wtransport::driver::utils::streamid_q2w")
     STOPQ = re.compile(r"^wtransport_proto::(varint::VarInt|ids::StreamId)::|^quinn|^<impl .*From<quinn")
     sg = [path_sig(p)[1] for p in nonpanic(walk(f, inline=STOPQ))]
-    ctx.check(rid, "streamid_q2w", sg == ["return StreamId::new(VarInt::from_u64_unchecked(VarInt::into_inner(<impl From<StreamId> for VarInt>::from(stream_id))))"],
+    ctx.check(rid, "streamid_q2w", sg == ["return StreamId(VarInt::from_u64_unchecked(VarInt::into_inner(<impl From<StreamId> for VarInt>::from(stream_id))))"],
               "streamid_q2w does not take the QUIC stream id verbatim (quinn::VarInt::from(stream_id).into_inner()): %s" % sg, where(f))
 
 
